@@ -74,10 +74,19 @@ def job_estimate(j):
         except Exception:
             pass
     mapping = {}
-    for name, count in j['mapping']:
+    if j.get('from_smiles'):
+        try:
+            from rdkit import Chem
+            if Chem.MolFromSmiles(j['from_smiles']) is None:
+                return {'decomp_exc': 'InvalidSmiles'}
+            mapping = lib.GetDescriptors(j['from_smiles'])
+        except Exception as e:
+            return {'decomp_exc': exc_name(e)}
+        j = dict(j, predecomp=j['from_smiles'])
+    for name, count in j.get('mapping', []):
         key = Group.parse(lib.scheme, name) if j.get('as_group') else name
         mapping[key] = count
-    res = {}
+    res = {'mapping_used': [[str(k), float(v)] for k, v in mapping.items()]}
     try:
         with warnings.catch_warnings(record=True):
             warnings.simplefilter('always')
@@ -113,6 +122,14 @@ def job_estimate(j):
         if j['dim'].get('elements'):
             res['s_el'] = [call(est.get_SoR, T, S_elements=True) for T in j['Ts']]
             res['g_el'] = [call(est.get_GoRT, T, S_elements=True) for T in j['Ts']]
+    if j.get('dim'):
+        from pmutt import constants as pc
+        res['Rtab'] = {u + '/K': pc.R(u + '/K') for u in j['dim']['units']}
+        if j['dim'].get('elements'):
+            from rdkit import Chem
+            m = Chem.AddHs(Chem.MolFromSmiles(j['predecomp']))
+            res['atoms'] = [a.GetAtomicNum() for a in m.GetAtoms()]
+            res['S_tab'] = {str(z): pc.S_elements[z] for z in sorted(set(res['atoms']))}
     if j.get('se'):
         res['se'] = {p: [call(getattr(est, GETTERS[p] + '_SE'), T) for T in j['Ts']]
                      for p in ('cp', 'h', 's')}
